@@ -173,16 +173,29 @@ func (c *Cache) Watch(
 		// Create/Get Informer
 		informer, _, err := c.informerMap.Get(ctx, gvk, uns)
 		if err != nil {
+			c.forgetFailedWatch(ctx, gvk)
 			return fmt.Errorf("getting informer from InformerMap: %w", err)
 		}
 
 		// ensure to add all event handlers to the new informer
 		if err := c.cacheSource.handleNewInformer(informer); err != nil {
+			c.forgetFailedWatch(ctx, gvk)
 			return fmt.Errorf("registering EventHandlers for %v: %w", gvk, err)
 		}
 	}
 
 	return nil
+}
+
+// forgetFailedWatch drops the bookkeeping of a kind whose informer could not be started
+// completely and stops whatever was started, so that the next Watch call starts over
+// instead of assuming a running informer with all event handlers registered.
+// Must be called with informerReferencesMux held.
+func (c *Cache) forgetFailedWatch(ctx context.Context, gvk schema.GroupVersionKind) {
+	delete(c.informerReferences, gvk)
+	if err := c.informerMap.Delete(ctx, gvk); err != nil {
+		logr.FromContextOrDiscard(ctx).Error(err, "stopping partially started informer", "gvk", gvk.String())
+	}
 }
 
 // Free all watches associated with the given owner.
